@@ -265,9 +265,6 @@ func (c *Ctx) ruleExcerpt() {
 		// the parameter that receives the diagnostic's line
 		var lineParam *ssa.Parameter
 		for _, cs := range P.Callers(wf) {
-			if cs.Parent() != fmtFn && !strings.Contains(FuncName(cs.Parent()), "formatPrettyError") {
-				continue
-			}
 			for ai, a := range cs.Common().Args {
 				if strings.HasSuffix(P.Desc(a), "go/token.Position.Line)") && ai < len(wf.Params) {
 					lineParam = wf.Params[ai]
@@ -298,6 +295,14 @@ func (c *Ctx) ruleExcerpt() {
 		okIn := lc2.prove(geq(want, first)) && lc2.prove(geq(last, want))
 		c.check(okIn, "EXCERPT/CONTAINS-LINE", cons, where, "an existing reported line lies inside the window [first, last]",
 			"the excerpt window does not always contain the reported line although the file has it (window bounds: "+first.key()+" .. "+last.key()+")")
+		// DEGRADE/NO-PARTIAL: no context lines without the line they are the context of: a line is put into the window
+		// only when the file (as read) has the reported line
+		lcA := c.newLin(s.b)
+		lA := lcA.of(lineParam)
+		nA := lcA.lenVar(srcBase)
+		okP := lcA.prove(geq(lA, linConst(1))) && lcA.prove(geq(nA, lA))
+		c.check(okP, "EXCERPT/DEGRADE/NO-PARTIAL", cons, where, "lines are shown only when the file has the reported line (1 <= line <= len(lines) dominates the append)",
+			"context lines are shown although the file as read does not have the reported line: 1 <= line <= len(lines) does not follow from the conditions under which a line is put into the excerpt (a file that is one or two lines shorter than expected gets a border and its last lines, without the diagnostic's line and without a caret, instead of no excerpt)")
 		// DEGRADE: an empty excerpt only for an unreadable file or a missing line
 		allInstrs(wf, func(b *ssa.BasicBlock, ins ssa.Instruction) {
 			r, ok := ins.(*ssa.Return)
@@ -336,6 +341,10 @@ func (c *Ctx) ruleExcerpt() {
 	}
 	// ---- the caret line
 	c.ruleCaretLine(fmtFn)
+	// ---- what a source line is
+	c.ruleFileLines()
+	// ---- nothing rendered is remembered
+	c.ruleReporterState()
 	// ---- bounded display lines
 	c.ruleTruncateBound()
 }
